@@ -459,6 +459,7 @@ struct Explorer
                     std::vector<int> h2 = nd.hist;
                     h2.push_back(oi);
                     oracle(h2, before, after, inst);
+                    if (d == depth) L.sample("{\"subject\": " + jstr(S.key) + ", \"history\": " + jstr(hist_name(ops, h2)) + ", \"returned_pairs\": " + num(long(after.evals.size())) + ", \"info\": " + jstr(info_name(after.info)) + "}", 4);
                     uint64_t c = inst.canon();
                     if (seen.insert(c).second)
                     {
